@@ -4,6 +4,7 @@
     run_tie(chk, ["exhaust", "context"])        # in C01 / C16
     run_tie(chk, ["names"])                      # in C08
     run_tie(chk, ["deparse"])                    # in C12
+    run_tie(chk, ["variables", "index_participants"])   # in C10 / C15
     run_tie(chk, ["desugar"])                    # in C01 / C15
 
 For every name: (1) regenerate the gen/*.v files it needs from /repo's working tree (py2coq,
@@ -51,6 +52,20 @@ TIE = {
         "theorems": ["gen_deparse_equiv", "gen_assignment_deparse_equiv", "gen_deparse_roundtrip_int"],
         "source": "expression/ast.py (deparse methods)",
         "model": "coq/model/Parser.v (print_expr, print_assignment)",
+    },
+    "index_participants": {
+        "gen": ["Deparse.v", "Desugar.v"],
+        "vo": "proofs/GenIndexParticipants_equiv.vo",
+        "theorems": ["gen_index_participants_equiv", "gen_index_names_summary", "gen_index_participants_keys_NoDup"],
+        "source": "expression/ast.py (index_participants methods, merge_index_participants)",
+        "model": "coq/model/ExprAst.v (index_participants)",
+    },
+    "variables": {
+        "gen": ["Deparse.v"],
+        "vo": "proofs/GenVariables_equiv.vo",
+        "theorems": ["gen_variables_equiv", "gen_variable_orders"],
+        "source": "expression/ast.py (variables methods)",
+        "model": "coq/model/ExprAst.v (variables, variable_orders)",
     },
 }
 
